@@ -1,11 +1,11 @@
 #!/usr/bin/env python3
-"""C18 leg A (E-LOOM) as a `kind: script` leg of ./vf.
+"""C19 leg loom (E-LOOM) as a `kind: script` leg of ./vf.
 
-  c18.py --tier quick|thorough --seed N --out <part.json>     derive + (incremental) build + run
-  c18.py --replay <replay.json>                               same, re-running one recorded model
-  c18.py --setup                                              derive + build only (used by `vf setup`)
+  c19.py --tier quick|thorough --seed N --out <part.json>     derive + (incremental) build + run
+  c19.py --replay <replay.json>                               same, re-running one recorded model
+  c19.py --setup                                              derive + build only (used by `vf setup`)
 
-Steps: (1) derive.py writes <harness>/h-loom/src/tsgen.rs from $VERIF_REPO (default /repo); a rewrite that
+Steps: (1) derive.py writes <harness>/h-loom/src/c19/mchan.rs from $VERIF_REPO (default /repo); a rewrite that
 does not apply is exit 2; (2) cargo build --offline --profile verif in the crate's own target dir
 (/verif/.target/loom, or <alt target>/loom for `vf check --repo`); (3) exec the harness binary, which
 writes the evidence part itself through vcore::Report and follows the 0/1/2 exit protocol.
@@ -17,8 +17,8 @@ ROOT = os.environ.get("VERIF_ROOT") or os.path.dirname(os.path.dirname(HERE))
 
 
 def fail(msg, tail=""):
-    print("MACHINERY-ERROR: C18 loom leg: %s" % msg)
-    sys.stderr.write("MACHINERY-ERROR: C18 loom leg: %s\n%s\n" % (msg, tail))
+    print("MACHINERY-ERROR: C19 loom leg: %s" % msg)
+    sys.stderr.write("MACHINERY-ERROR: C19 loom leg: %s\n%s\n" % (msg, tail))
     sys.exit(2)
 
 
@@ -35,14 +35,14 @@ def main():
         tag = "".join(c if c.isalnum() else "_" for c in os.path.realpath(repo)).strip("_")
         target = os.path.join(ROOT, ".target", "alt-" + tag, "loom")
         # a derived file in the main harness tree must never come from another repository
-        crate_alt = "/tmp/vf-alt-%s-h-loom" % tag
+        crate_alt = "/tmp/vf-alt-%s-h-loom19" % tag
         subprocess.run(["rm", "-rf", crate_alt])
         subprocess.run(["cp", "-r", crate, crate_alt], check=True)
         txt = open(os.path.join(crate_alt, "Cargo.toml")).read().replace('path = "../vcore"', 'path = "%s/vcore"' % harness)
         open(os.path.join(crate_alt, "Cargo.toml"), "w").write(txt)
         crate = crate_alt
 
-    p = subprocess.run([sys.executable, os.path.join(HERE, "derive.py"), repo, os.path.join(crate, "src", "tsgen.rs")], stdout=subprocess.PIPE, stderr=subprocess.PIPE, text=True)
+    p = subprocess.run([sys.executable, os.path.join(HERE, "derive_mc.py"), repo, os.path.join(crate, "src", "c19", "mchan.rs")], stdout=subprocess.PIPE, stderr=subprocess.PIPE, text=True)
     if p.returncode != 0:
         sys.stdout.write(p.stdout)
         sys.stderr.write(p.stderr)
@@ -51,21 +51,21 @@ def main():
     if not (main_harness and os.path.realpath(repo) == "/repo"):
         # An alternate harness copy is re-created from the main tree (mtimes preserved) on every `vf --repo`
         # run while its target dir persists: without a fresh mtime cargo would keep a binary built from an
-        # earlier (differently derived) tsgen.rs. Found when two seeded changes were confirmed back to back.
-        os.utime(os.path.join(crate, "src", "tsgen.rs"), None)
+        # earlier (differently derived) mchan.rs. Found when two seeded changes were confirmed back to back.
+        os.utime(os.path.join(crate, "src", "c19", "mchan.rs"), None)
 
     env = dict(os.environ)
     env["CARGO_NET_OFFLINE"] = "true"
     env["CARGO_TARGET_DIR"] = target
     for k in ("RUSTFLAGS", "RUSTC_WRAPPER", "CARGO_ENCODED_RUSTFLAGS", "CARGO_BUILD_RUSTFLAGS"):
         env.pop(k, None)
-    b = subprocess.run(["cargo", "build", "--offline", "--locked", "--profile", "verif", "--bin", "c18loom"], cwd=crate, env=env, stdout=subprocess.PIPE, stderr=subprocess.STDOUT, text=True)
+    b = subprocess.run(["cargo", "build", "--offline", "--locked", "--profile", "verif", "--bin", "c19loom"], cwd=crate, env=env, stdout=subprocess.PIPE, stderr=subprocess.STDOUT, text=True)
     if b.returncode != 0:
         fail("cargo build of the loom harness failed (derived source does not compile?)", "\n".join(b.stdout.splitlines()[-25:]))
     if "--setup" in sys.argv[1:]:
-        print("C18 loom harness built (%s)" % p.stdout.strip())
+        print("C19 loom harness built (%s)" % p.stdout.strip())
         return 0
-    exe = os.path.join(target, "verif", "c18loom")
+    exe = os.path.join(target, "verif", "c19loom")
     os.execve(exe, [exe] + sys.argv[1:], env)
 
 
